@@ -210,6 +210,15 @@ def catalogue(chk, deb, btcc, tap):
     for pv in ("int(0x010203040506):02", "0x01:int(0x010203040506)", "hex(:", "sha256(0x):sha256(", "[OP_1]:[", "add([1]):02", "0x" + "ab" * 3000 + ":02", ":", "::", ",", "a:b:c,d"):
         cli("pretend-expr", "btcdeb", ["-P", pv, "[OP_1]"])
         cli("pretend-expr", "btcdeb", ["--pretend-valid=" + pv], stdin_data=b"[OP_1]\n", stdin_tty=False)
+    # amount lists of every length relative to the number of inputs, each input debugged
+    for typ in ("p2pkh", "p2wpkh", "p2tr-key"):
+        for n_in in (2, 4):
+            for nin in range(n_in):
+                c = gen_spend.SpendCase(rng, typ, "valid", n_in, nin, 0)
+                for k in (0, 1, n_in - 1, n_in, n_in + 3):
+                    pre = ",".join(["0.5"] * k) + (":" if k else "")
+                    cli("amount-list", "btcdeb", ["--tx=" + pre + c.tx.hex(), "--txin=" + c.funding.hex()])
+                    cli("amount-list", "btcdeb", ["--tx=" + pre + c.tx.hex(), "--txin=" + c.funding.hex(), "--select=%d" % nin], stdin_data=b"", stdin_tty=False)
     # transactions of degenerate shape
     for txh in ("01000000000000000000", "0100000000010000000000", "010000000001000000000000", "02000000000100000000000000", "0100000001" + "00" * 36 + "00ffffffff0000000000",
                 "01000000" + "00" * 200, "ffffffff" * 20):
